@@ -43,6 +43,8 @@ RAbs(a) == <<Abs(a[1]), a[2]>>
 RMin(a, b) == IF RLt(b, a) THEN b ELSE a
 RMax(a, b) == IF RLt(a, b) THEN b ELSE a
 B2Q(b) == IF b THEN Q(1) ELSE Q(0)
+\* |a - b| <= 1e-4 |a|   (exact when a = 0)
+Near(a, b) == LET d == RSub(a, b) IN REq(a, b) \/ (a[1] # 0 /\ ~RLt(RMul(RAbs(a), <<1, 10000>>), RAbs(d)))
 
 ArithOps == {"+", "-", "*", "/", "^"}
 CmpOps == {"==", "!=", ">=", "<=", "<", ">"}
@@ -54,9 +56,11 @@ Funcs == Reductions \cup Elementals
 \* element-wise binary operation on defined rationals
 Bin(op, a, b) == CASE op = "+" -> RAdd(a, b) [] op = "-" -> RSub(a, b) [] op = "*" -> RMul(a, b)
                    [] op = "/" -> RDiv(a, b) [] op = "^" -> RPow(a, b)
-                   [] op = "==" -> B2Q(REq(a, b)) [] op = "!=" -> B2Q(~REq(a, b))
+                   \* ==, !=, <=, >= compare within the relative tolerance of UDQPARAM (1e-4 of the
+                   \* left-hand side); < and > are exact
+                   [] op = "==" -> B2Q(Near(a, b)) [] op = "!=" -> B2Q(~Near(a, b))
                    [] op = "<" -> B2Q(RLt(a, b)) [] op = ">" -> B2Q(RLt(b, a))
-                   [] op = "<=" -> B2Q(~RLt(b, a)) [] op = ">=" -> B2Q(~RLt(a, b))
+                   [] op = "<=" -> B2Q(RLt(a, b) \/ Near(a, b)) [] op = ">=" -> B2Q(RLt(b, a) \/ Near(a, b))
                    [] op = "UADD" -> RAdd(a, b) [] op = "UMUL" -> RMul(a, b)
                    [] op = "UMIN" -> RMin(a, b) [] op = "UMAX" -> RMax(a, b)
 \* undefined propagates - except for the union operators, where one defined side suffices
